@@ -371,6 +371,8 @@ func ExecSrv(t []string) (res string) {
 		return ksReq(t[1:])
 	case "ks.held":
 		return ksHeld(t[1:])
+	case "ks.storm":
+		return ksStorm(t[1:])
 	}
 	return Exec(t)
 }
